@@ -128,6 +128,22 @@ def probe_consistency(D, N, seed):
     a = 3.7
     res["homogeneous"] = abs(float(M.RMSE(a * ju, a * jr)) - a * float(M.RMSE(ju, jr))) + abs(float(M.MAE(a * ju, a * jr)) - a * float(M.MAE(ju, jr)))
     res["scale_free"] = abs(float(M.nRMSE(a * ju, a * jr)) - float(M.nRMSE(ju, jr))) + abs(float(M.sMSE(a * ju, a * jr)) - float(M.sMSE(ju, jr)))
+    # the relative (normalized / symmetric) variants at a domain extent != 1: symmetric in the arguments, independent of L
+    # (the L^D factors cancel), and equal to the documented quotient of the absolute metric at the same L
+    for nm, absn in (("sMAE", "MAE"), ("sMSE", "MSE"), ("sRMSE", "RMSE")):
+        f = getattr(M, nm)
+        fa = getattr(M, absn)
+        v1 = float(f(ju, jr, domain_extent=L))
+        res[f"{nm}:symmetric@L"] = abs(v1 - float(f(jr, ju, domain_extent=L)))
+        res[f"{nm}:L-independent"] = abs(v1 - float(f(ju, jr, domain_extent=1.0)))
+        # per channel: 2 |u-v| / (|u| + |v|), summed over channels
+        want = sum(2 * float(fa(ju[c:c + 1], jr[c:c + 1], domain_extent=L)) /
+                   (float(fa(ju[c:c + 1], 0 * ju[c:c + 1], domain_extent=L)) + float(fa(jr[c:c + 1], 0 * jr[c:c + 1], domain_extent=L)))
+                   for c in range(C))
+        res[f"{nm}:quotient@L"] = abs(v1 - want)
+    for nm in ("nMAE", "nMSE", "nRMSE"):
+        f = getattr(M, nm)
+        res[f"{nm}:L-independent"] = abs(float(f(ju, jr, domain_extent=L)) - float(f(ju, jr, domain_extent=1.0)))
     # Sobolev
     res["sobolev"] = abs(float(M.H1_MSE(ju, jr, domain_extent=L)) - float(M.fourier_MSE(ju, jr, domain_extent=L)) -
                          float(M.fourier_MSE(ju, jr, domain_extent=L, derivative_order=1)))
